@@ -510,3 +510,77 @@ theorem initialise_confined (cfg : Cfg) (cur : List (List Nat)) (h : initialise 
         simpa using hns
 
 end Panqec.Split
+
+namespace Panqec.Split
+
+open Panqec
+
+/-! ### invariants of single chain steps are invariants of whole runs -/
+
+/-- a predicate on states that does not look at `n_runs` and is kept by every chain step is
+    kept by `sweepGo`, `sweep`, `sweeps` -/
+theorem sweepGo_preserves (cfg : Cfg) (draws : Nat → Draw) (P : State → Prop)
+    (hstep : ∀ s s' j rate t, P s → chainStep cfg draws s j rate = .ok (s', t) → P s') :
+    ∀ (L : List (Rat × Nat)) (s s' : State) (acc tr : List StepTrace),
+      P s → sweepGo cfg draws L s acc = .ok (s', tr) → P s'
+  | [], s, s', acc, tr, hp, h => by
+    simp only [sweepGo, Except.ok.injEq, Prod.mk.injEq] at h
+    rw [← h.1]; exact hp
+  | (r, i) :: L, s, s', acc, tr, hp, h => by
+    simp only [sweepGo] at h
+    cases hc : chainStep cfg draws s i r with
+    | error e => simp [hc] at h
+    | ok p =>
+      obtain ⟨s1, t⟩ := p
+      simp only [hc] at h
+      exact sweepGo_preserves cfg draws P hstep L s1 s' _ tr (hstep s s1 i r t hp hc) h
+
+theorem sweeps_preserves (cfg : Cfg) (draws : Nat → Draw) (P : State → Prop)
+    (hstep : ∀ s s' j rate t, P s → chainStep cfg draws s j rate = .ok (s', t) → P s')
+    (hn : ∀ s n, P s → P { s with nRuns := n }) :
+    ∀ (k : Nat) (s s' : State) (acc tr : List StepTrace),
+      P s → sweeps cfg draws k s acc = .ok (s', tr) → P s'
+  | 0, s, s', acc, tr, hp, h => by
+    simp only [sweeps, Except.ok.injEq, Prod.mk.injEq] at h
+    rw [← h.1]; exact hp
+  | k + 1, s, s', acc, tr, hp, h => by
+    simp only [sweeps] at h
+    cases hs : sweep cfg draws s with
+    | error e => simp [hs] at h
+    | ok p =>
+      obtain ⟨s1, tr1⟩ := p
+      simp only [hs] at h
+      refine sweeps_preserves cfg draws P hstep hn k s1 s' _ tr ?_ h
+      unfold sweep at hs
+      cases hg : sweepGo cfg draws cfg.rates.zipIdx s [] with
+      | error e => simp [hg] at hs
+      | ok q =>
+        obtain ⟨s2, t2⟩ := q
+        simp only [hg, Except.ok.injEq, Prod.mk.injEq] at hs
+        rw [← hs.1]
+        exact hn _ _ (sweepGo_preserves cfg draws P hstep _ s s2 [] t2 hp hg)
+
+/-- … hence by `_run` from the state after `__init__`, if it holds right after the
+    initialisation block -/
+theorem runTr_init_preserves (cfg : Cfg) (draws : Nat → Draw) (P : State → Prop)
+    (hstep : ∀ s s' j rate t, P s → chainStep cfg draws s j rate = .ok (s', t) → P s')
+    (hn : ∀ s n, P s → P { s with nRuns := n })
+    (h0 : ∀ cur, initialise cfg = .ok cur → P { State.init cfg with current := cur })
+    (k : Nat) (s' : State) (tr : List StepTrace)
+    (h : runTr cfg draws k (State.init cfg) = .ok (s', tr)) : P s' := by
+  unfold runTr at h
+  simp only [State.init, List.length_nil, beq_self_eq_true, if_true] at h
+  cases hi : initialise cfg with
+  | error e => simp [hi] at h
+  | ok cur =>
+    simp only [hi] at h
+    exact sweeps_preserves cfg draws P hstep hn k _ s' [] tr (h0 cur hi) h
+
+theorem rec_init (cfg : Cfg) (cur : List (List Nat)) : Rec cfg { State.init cfg with current := cur } := by
+  intro i ds c l _ _ hl x hx
+  simp only [State.init, List.getElem?_replicate] at hl
+  split at hl
+  · cases hl; simp at hx
+  · cases hl
+
+end Panqec.Split
